@@ -22,6 +22,11 @@ All of them are determined by BEHAVIOUR, not by looking at the source text.
       the full repair - and with `step` (code with F5) otherwise; in that case `stepF` / `stepM` are compared
       with the tree's history.py + the proposed diff.
 
+  callHoisted : is the inner `load_history_strings()` called in front of the locked block of
+      `_in_load_thread` (while its first item is requested inside)?  `Props/C13.lean` re-decides
+      `callHoisted = false` on every run (`gen_call_in_lock`): for an inner history that reads its
+      storage when called (FileHistory) a hoisted call loses entries (`hoisted_call_loses_entry`).
+
   inlineCopies : does the inline generator `History.load()` iterate over a copy of `_loaded_strings`
       (an `append_string` between two items then does not make it yield an item twice)?
 
@@ -72,6 +77,34 @@ def _probe_locks(mod):
     th._in_load_thread()
     th.append_string("y")
     return bool(seen.get("snap")), bool(seen.get("store"))
+
+
+def probe_call_hoisted(mod=None) -> bool:
+    """is the inner `load_history_strings()` CALLED outside the lock although its first item is requested
+    inside?  (matters for an inner history that reads its storage when it is called: FileHistory)"""
+    try:
+        if mod is None:
+            import prompt_toolkit.history as mod
+        seen = {}
+
+        class Inner(mod.History):
+            def load_history_strings(self):      # an ordinary function, like FileHistory's
+                seen["call"] = th._lock.locked()
+
+                def gen():
+                    seen["first"] = th._lock.locked()
+                    yield "x"
+
+                return gen()
+
+            def store_string(self, string):
+                pass
+
+        th = mod.ThreadedHistory(Inner())
+        th._in_load_thread()
+        return bool(seen.get("first")) and not bool(seen.get("call"))
+    except Exception:
+        return False
 
 
 def _probe_consumer_shift(mod) -> bool:
@@ -200,6 +233,7 @@ def generate() -> None:
     fixed = probe_append_fixed()
     writes = probe_store_writes()
     inline = probe_inline_copies()
+    hoisted = probe_call_hoisted()
     body = "namespace Ptk.Gen.C13\n\n"
     body += ("/-- the loader thread's `for event in …: event.set()` loops run over a copy of\n"
              "    `_string_load_events` (observed by running `_in_load_thread` with self-removing events) -/\n")
@@ -213,10 +247,13 @@ def generate() -> None:
     body += ("/-- the inline `History.load()` generator iterates over a copy of `_loaded_strings` (observed:\n"
              "    an append between two items does not shift what it yields) -/\n")
     body += f"def inlineCopies : Bool := {'true' if inline else 'false'}\n\n"
+    body += ("/-- the loader thread CALLS the inner `load_history_strings()` in front of the locked block in which\n"
+             "    it requests the first item (an eager inner history then reads its storage outside the lock) -/\n")
+    body += f"def callHoisted : Bool := {'true' if hoisted else 'false'}\n\n"
     body += "end Ptk.Gen.C13\n"
     G.write("C13.lean", body)
 
 
 if __name__ == "__main__":
     generate()
-    print(probe(), probe_append_fixed(), probe_store_writes(), probe_inline_copies())
+    print(probe(), probe_append_fixed(), probe_store_writes(), probe_inline_copies(), probe_call_hoisted())
